@@ -535,6 +535,33 @@ func defuseRootOperands(path []Frag, doc any) (out []Frag, changed, ok bool) {
 				return &c
 			}
 			c.Path = frs(e.Path)
+		case "un":
+			// length / count of a root-anchored path: replace the call by the integer it denotes
+			if (e.Op == "length" || e.Op == "count") && e.A != nil && e.A.Kind == "p" && len(e.A.Path) > 0 && e.A.Path[0].Kind == "R" {
+				rs := BuildExpr(e.A.Path).Get(doc)
+				if e.Op == "count" {
+					changed = true
+					return &Eqn{Kind: "v", Const: int64(len(rs))}
+				}
+				if len(rs) == 1 {
+					n := -1
+					switch t := rs[0].(type) {
+					case string:
+						n = len(t)
+					case []any:
+						n = len(t)
+					case map[string]any:
+						n = len(t)
+					}
+					if n >= 0 {
+						changed = true
+						return &Eqn{Kind: "v", Const: int64(n)}
+					}
+				}
+				ok = false
+				return &c
+			}
+			c.A, c.B = eq(e.A), eq(e.B)
 		default:
 			c.A, c.B = eq(e.A), eq(e.B)
 		}
